@@ -11,12 +11,12 @@ def templates(tier, seed):
     ts = []
     for N in ((2,) if tier == "quick" else (1, 2, 3)):
         ts.append(Template(f"series_Int/rd=all/coerce=0/N={N}", t_drop, ("series_Int", N, dict(rd="all", coerce=False))))
-        for shape in ("series", "column", "frame", "frame_wide", "frame_joint", "frame_index", "model"):
+        for shape in ("series", "column", "frame", "frame_wide", "frame_wide3", "frame_joint", "frame_index", "model"):
             for rd in ("all", "exclude_first", "exclude_last"):
                 if shape == "model" and rd != "all":
                     continue
                 for coerce in (False, True):
-                    if tier == "quick" and coerce and (rd != "all" or shape in ("frame_wide", "frame_index")):
+                    if tier == "quick" and coerce and (rd != "all" or shape in ("frame_wide", "frame_wide3", "frame_index")):
                         continue
                     ts.append(Template(f"{shape}/rd={rd}/coerce={int(coerce)}/N={N}", t_drop, (shape, N, dict(rd=rd, coerce=coerce))))
     # violations that are not attributable to rows are still raised
